@@ -57,7 +57,15 @@ class TypeAliasUnwrappingProvider(LocatedRequestDelegatingProvider):
         if not isinstance(norm, NormTypeAlias):
             raise CannotProvide
 
-        return norm.value[tuple(arg.source for arg in norm.args)] if norm.args else norm.value
+        if not norm.args:
+            return norm.value
+
+        # the value may use the parameters in another order than the alias declares them: `type RevMap[K, V] = dict[V, K]`
+        param_to_arg = {param.source: arg.source for param, arg in zip(norm.type_params, norm.args)}
+        value_params = getattr(norm.value, "__parameters__", ())
+        if len(param_to_arg) == len(norm.args) and all(param in param_to_arg for param in value_params):
+            return norm.value[tuple(param_to_arg[param] for param in value_params)] if value_params else norm.value
+        return norm.value[tuple(arg.source for arg in norm.args)]
 
 
 class ForwardRefEvaluatingProvider(LocatedRequestDelegatingProvider):
